@@ -42,7 +42,17 @@ type Isqrt struct {
 func (f *Isqrt) Call(s *slip.Scope, args slip.List, depth int) (result slip.Object) {
 	slip.CheckArgCount(s, depth, f, args, 1, 1)
 	switch ta := args[0].(type) {
+	case slip.Fixnum:
+		// A float64 can not represent all fixnums so math.Sqrt is off by one
+		// just below some perfect squares.
+		if ta < 0 {
+			slip.ArithmeticPanic(s, depth, f, args, "only non-negative values are allowed")
+		}
+		result = slip.Fixnum(new(big.Int).Sqrt(big.NewInt(int64(ta))).Int64())
 	case *slip.Bignum:
+		if (*big.Int)(ta).Sign() < 0 {
+			slip.ArithmeticPanic(s, depth, f, args, "only non-negative values are allowed")
+		}
 		result = canonicalInteger(new(big.Int).Sqrt((*big.Int)(ta)))
 	case *slip.LongFloat:
 		var z big.Int
